@@ -13,7 +13,13 @@ import (
 // regard to accounting validity (for the syntax-level properties C07, C08,
 // C15): all kinds, addons, Unicode names, multi-line descriptions.
 func GenSyntaxJournal(t *rapid.T, maxN int, includes bool) []ref.Directive {
-	n := rapid.IntRange(0, maxN).Draw(t, "nDirectives")
+	return GenSyntaxJournalN(t, 0, maxN, includes)
+}
+
+// GenSyntaxJournalN is GenSyntaxJournal with a lower bound on the number of directives; above 500 directives
+// a transaction occasionally carries hundreds of bookings (a broker's year-end statement pasted as one entry).
+func GenSyntaxJournalN(t *rapid.T, minN, maxN int, includes bool) []ref.Directive {
+	n := rapid.IntRange(minN, maxN).Draw(t, "nDirectives")
 	pool := append(append([]string{}, segPoolASCII...), segPoolUni...)
 	cpool := append(append([]string{}, comPool...), comPoolUni...)
 	account := func() string {
@@ -69,6 +75,9 @@ func GenSyntaxJournal(t *rapid.T, maxN int, includes bool) []ref.Directive {
 		case ref.KTrx:
 			d.Desc = desc()
 			nb := rapid.SampledFrom([]int{1, 1, 2, 3, 5}).Draw(t, "nb")
+			if minN >= 500 && Rare(t, "hugeTrx", 9) {
+				nb = rapid.SampledFrom([]int{64, 65, 200, 1025, 1100}).Draw(t, "nbHuge")
+			}
 			for j := 0; j < nb; j++ {
 				d.Bookings = append(d.Bookings, ref.Booking{Credit: account(), Debit: account(), Qty: qty(), Com: com()})
 			}
